@@ -79,8 +79,15 @@ FlatRows(t, id1, id2, parent, depth, side, paxis, next) ==    \* next = row inde
   IN IF t.leaf THEN me
      ELSE me \o FlatRows(t.lo, id1, id2, next, depth + 1, "le", t.axis, next + 1)
              \o FlatRows(t.hi, id1, id2, next, depth + 1, "gt", t.axis, next + 1 + NNodes(t.lo))
-Plotly(t, id1, id2) == IF t.cnt[id1] = -1 THEN <<>>      \* an id that was never filled has no view
-                       ELSE FlatRows(t, id1, id2, 0, 0, "root", -1, 1)
+PlotlyAll(t, id1, id2) == IF t.cnt[id1] = -1 THEN <<>>      \* an id that was never filled has no view
+                          ELSE FlatRows(t, id1, id2, 0, 0, "root", -1, 1)
+(* max_depth keeps the rows down to that depth (0: all of them).  In a preorder listing the parent of a row is the
+   nearest earlier row one level up: the parent pointers are re-derived for the rows that remain *)
+KeepDepth(rows, maxd) == IF maxd = 0 THEN rows ELSE SelectSeq(rows, LAMBDA r : r.depth <= maxd)
+ParentIn(f, k) == IF f[k].depth = 0 THEN 0 ELSE Max({j \in 1..(k - 1) : f[j].depth = f[k].depth - 1})
+Reparent(f) == [k \in 1..Len(f) |-> [f[k] EXCEPT !.parent = ParentIn(f, k)]]
+PlotlyD(t, id1, id2, maxd) == Reparent(KeepDepth(PlotlyAll(t, id1, id2), maxd))
+Plotly(t, id1, id2) == PlotlyD(t, id1, id2, 0)
 (* Kulldorff spatial scan statistic of a node: divergence between the two-cell (node vs rest) distributions *)
 KSS(cref, ctest, refmax, testmax) == KL(<<cref, refmax - cref>>, <<ctest, testmax - ctest>>)
 SeqMaxInt(q) == Max({ q[i] : i \in 1..Len(q) })
